@@ -55,6 +55,11 @@ func main() {
 		}
 	}
 	gen(nil)
+	// tilde-prefixes other than the one documented exception "~/": login names, ~+ and ~-, quoted and unquoted continuations
+	for _, t := range []string{"~a/b", "~ab/", "~a", "~b/'", "~root/x", "~root", "~root/.ssh/id", "~nobody/", "~daemon/x y", "~+/x", "~-/x", "~0/", "~a b/", "~//", "~/~a/",
+		"a~/b", "~\\/x", "~/a/~root/", "~root/$a", "~a/*", "~/*", "~/ a", "~/'", "~/\"", "~/\n", "~", "~~/", "~/~", " ~/a", "~root\n/x", "~:/x", "~a:~b/"} {
+		inputs = append(inputs, t)
+	}
 	rng := rand.New(rand.NewSource(vio.Seed()))
 	// harmless vocabulary: no letters other than a/b, so no command or builtin name can be spelled
 	pieces := []string{"'", "''", "\"", "\\", "$", "$a", "${a}", "$(a)", "`", "`a`", " ", "  ", "\n", "\t", ";", "&", "&&", "|", "||",
